@@ -130,11 +130,49 @@ def conv_list(thorough):
     return q + (x if thorough else []), x
 
 
+def c_kind(v):
+    """the static pair slice used over a dimension whose pattern entry is `v`: [1, v) for a static extent v >= 1, the empty
+    [0, 0) for v == 0, [1, 3) over a dynamic extent (valid for the run-time extents 3 and 4)"""
+    if v < 0:
+        return "C1_3"
+    return "C0_0" if v == 0 else "C1_%d" % v
+
+
 def sub_list():
-    """(index type, pattern, keep mask) for submdspan_extents: every mask of full_extent / index slices"""
+    """(index type, pattern, slice kinds) for submdspan_extents: every mask of full_extent (F) / index (I) slices, and
+    vectors with index-pair slices: P etl::pair<T,T>, T etl::tuple<int,long>, A etl::array<T,2> (run-time bounds), M1
+    pair<integral_constant<1>, int> (one static bound), C<lo>_<hi> pair of integral constants (static extent)"""
     pats = [("i32", p) for p in [()] + masks_over([(3,), (2, 3), (2, 3, 4)]) + [(0, 3), (4, 4, 4, 4), (2, -1, 4, -1)]]
     pats += [("u8", (2, -1, 4)), ("i64", (-1, 3)), ("u16", (-1, -1, -1))]
-    return [(it, p, m) for it, p in pats for m in range(2 ** len(p))]
+    out = [(it, p, tuple("F" if (m >> j) & 1 else "I" for j in range(len(p)))) for it, p in pats for m in range(2 ** len(p))]
+    rnd = random.Random(1903)
+
+    def is_pair(k):
+        return k[0] in "PTAMC"
+    # rank 1: every pair kind
+    for p in masks_over([(3,)]) + [(0,)]:
+        for k in ["P", "T", "A", "M1", c_kind(p[0]), "C0_0"]:
+            out.append(("i32", p, (k,)))
+    # rank 2: every vector over F / I / P / C with at least one pair
+    for p in masks_over([(2, 3)]) + [(0, 3)]:
+        for ks in itertools.product("FIPC", repeat=2):
+            ks = tuple(c_kind(v) if k == "C" else k for k, v in zip(ks, p))
+            if any(is_pair(k) for k in ks):
+                out.append(("i32", p, ks))
+    # rank 3 / 4 and the other index types: sampled vectors over all kinds
+    def sample(it, p, n):
+        got = set()
+        while len(got) < n:
+            ks = tuple(c_kind(v) if k == "C" else ("M1" if k == "M" else k) for k, v in zip([rnd.choice("FIPPCTAM") for _ in p], p))
+            if any(is_pair(k) for k in ks):
+                got.add(ks)
+        return [(it, p, ks) for ks in sorted(got)]
+    for p in masks_over([(2, 3, 4)]):
+        out += sample("i32", p, 5)
+    out += sample("i32", (2, -1, 4, -1), 4)
+    for it, p in [("u8", (2, -1, 4)), ("i64", (-1, 3)), ("u16", (-1, -1, -1)), ("i8", (-1, 4))]:
+        out += sample(it, p, 4)
+    return dedup(out)
 
 
 def span_ct_list():
@@ -200,8 +238,16 @@ def emit_inst(f):
     section("C19_CONV", conv_list(True), lambda t: 'C19_CONV("%s<%s:%s<%s", (etl::extents<%s%s>), (etl::extents<%s%s>))\n'
             % (t[0], t[1], pat_str(t[2]), pat_str(t[3]), CTYPE[t[0]], targs(t[2]), CTYPE[t[1]], targs(t[3])))
     f.write("#ifdef C19_SUB\n")
-    for it, p, m in sub_list():
-        f.write('C19_SUB("%s:%s:%d", %d, %s%s)\n' % (it, pat_str(p), m, m, CTYPE[it], targs(p)))
+    def kind_type(k):
+        if k[0] == "C":
+            lo, hi = k[1:].split("_")
+            return "SC<%s, %s>" % (lo, hi)
+        if k[0] == "M":
+            return "SM<%s>" % k[1:]
+        return "S" + k
+    for it, p, ks in sub_list():
+        f.write('C19_SUB("%s:%s:%s", (%s), %s%s)\n' % (it, pat_str(p), ",".join(ks) if ks else "-", ", ".join(kind_type(k) for k in ks),
+                                                      CTYPE[it], targs(p)))
     f.write("#endif\n")
     f.write("#ifdef C19_SPAN\n")
     for se, op, o, c in span_ct_list():
@@ -357,6 +403,11 @@ def generate(tier, seed):
                     k += 1
                     add("map lay=%s it=%s pat=%s ext=%s ctor=%s form=%s"
                         % (lay, it, pat_str(p), fmt_list(vals), ("dyn", "all")[k % 2], forms_all[k % 3]), "map/%s" % lay)
+            # mdarray constructors (one line per shape and layout)
+            if prod(vals) <= 256:
+                for lay in ("left", "right"):
+                    k += 1
+                    add("mda lay=%s it=%s pat=%s ext=%s val=%d" % (lay, it, pat_str(p), fmt_list(vals), (7, -3, 1)[k % 3]), "mda/%s" % lay)
             # explicit strides: permuted, padded; several draws per shape
             ndraw = (3 if thorough else 1) if r >= 3 else (4 if thorough else 2)
             if r == 0:
@@ -369,16 +420,71 @@ def generate(tier, seed):
                 add("map lay=stride it=%s pat=%s ext=%s ctor=%s form=%s str=%s perm=%s"
                     % (it, pat_str(p), fmt_list(vals), ("dyn", "all")[k % 2], ("array", "span")[k % 2], fmt_list(strs),
                        fmt_list(perm)), "map/stride/r%d" % r)
+                if r == 2:
+                    # the transposed view of a strided mapping (layout_transpose<layout_stride>): same extents and strides
+                    add("map lay=tstride it=%s pat=%s ext=%s ctor=%s form=%s str=%s perm=%s"
+                        % (it, pat_str(p), fmt_list(vals), ("dyn", "all")[k % 2], ("array", "span")[k % 2], fmt_list(strs),
+                           fmt_list(perm)), "map/tstride")
+                if d == 0 and req_stride(vals, strs) <= 256:
+                    add("mda lay=stride it=%s pat=%s ext=%s val=%d str=%s perm=%s"
+                        % (it, pat_str(p), fmt_list(vals), (7, -3, 1)[k % 3], fmt_list(strs), fmt_list(perm)), "mda/stride")
+    # ---- mdspan::size / empty / extents for shapes inside the precondition of the standard (every extent and the SIZE
+    # representable) but outside `Fits`: a zero extent among extents whose product is not representable
+    for it, p in map_type_list(THOROUGH_BUILD)[0]:
+        r = len(p)
+        if r < 2 or any(x >= 0 for x in p):
+            continue
+        big = min(it_max(it), 2 ** 63 - 1)          # the line protocol of the harness carries long long values
+        for zpos in range(r):
+            for fill in (big, big // 2 + 1, 2 if ITS[it][0] >= 32 else 16):
+                vals = [fill if j != zpos else 0 for j in range(r)]
+                for lay in ("left", "right"):
+                    add("msz lay=%s it=%s pat=%s ext=%s" % (lay, it, pat_str(p), fmt_list(vals)), "msz")
+        # and without a zero: the size fits size_type (unsigned) but not index_type
+        if ITS[it][1] and r == 2:
+            a = 2 ** (ITS[it][0] // 2)
+            for lay in ("left", "right"):
+                add("msz lay=%s it=%s pat=%s ext=%s" % (lay, it, pat_str(p), fmt_list([a, a - 1])), "msz")
     # ---- layout_stride::required_span_size / is_exhaustive alone (they were undefined before the fix): a few shapes
     for (p, vals, strs) in [((2, 3), (2, 3), (3, 1)), ((-1, -1), (2, 3), (1, 2)), ((-1, 3, -1), (2, 3, 4), (1, 8, 2))]:
         add("stride_members it=i32 pat=%s ext=%s str=%s" % (pat_str(p), fmt_list(vals), fmt_list(strs)), "stride_members")
-    # ---- submdspan_extents: every keep mask x every dynamic value vector
-    for it, p, m in sub_list():
+    # ---- submdspan_extents: every instantiated slice-kind vector x every dynamic value vector x index-pair bounds
+    # (all lo <= hi <= extent for one pair dimension, sampled for more)
+    for it, p, ks in sub_list():
+        r = len(p)
+        lines = []
         for vals in dyn_choices(rnd, p, True, 0):
             if max(vals + (0,)) > it_max(it):
                 continue
-            keep = [(m >> j) & 1 for j in range(len(p))]
-            add("sub it=%s pat=%s ext=%s keep=%s" % (it, pat_str(p), fmt_list(vals), fmt_list(keep)), "sub/r%d" % len(p))
+            slots = []
+            okv = True
+            for k, v in zip(ks, vals):
+                if k in ("F", "I"):
+                    slots.append([(0, 0)])
+                elif k[0] == "C":
+                    lo, hi = (int(x) for x in k[1:].split("_"))
+                    okv = okv and hi <= v
+                    slots.append([(lo, hi)])
+                elif k[0] == "M":
+                    lo = int(k[1:])
+                    okv = okv and lo <= v
+                    slots.append([(lo, hi) for hi in range(lo, v + 1)])
+                else:
+                    slots.append([(lo, hi) for lo in range(0, v + 1) for hi in range(lo, v + 1)])
+            if not okv:
+                continue
+            combos = list(itertools.product(*slots))
+            cap = 12 if thorough else 4
+            if len(combos) > cap:
+                combos = rnd.sample(combos, cap)
+            for c in combos:
+                lines.append("sub it=%s pat=%s ext=%s sl=%s lo=%s hi=%s" % (it, pat_str(p), fmt_list(vals), ",".join(ks) if ks else "-",
+                                                                          fmt_list([x[0] for x in c]), fmt_list([x[1] for x in c])))
+        cap = 400 if thorough else 120
+        if any(k[0] in "PTAMC" for k in ks) and len(lines) > cap:
+            lines = rnd.sample(lines, cap)
+        for ln in lines:
+            add(ln, "sub/r%d%s" % (r, "/pair" if any(k[0] in "PTAMC" for k in ks) else ""))
     # ---- converting constructor
     for a, b, dp, sp in conv_list(THOROUGH_BUILD)[0]:
         # a position that is static on either side has that value (requires-clause / precondition)
@@ -447,7 +553,11 @@ def nontrivial(case, rows):
     if ln.startswith("ext"):
         return "pat=[]" not in ln
     if ln.startswith("sub"):
-        return "1" in ln.split("keep=")[1]
+        return "rk=0/" not in r.spec
+    if ln.startswith("mda"):
+        return "cm=0/" not in r.spec
+    if ln.startswith("msz"):
+        return True
     if ln.startswith("conv"):
         return "pat=[]" not in ln and "-1" in ln.split("pat=")[1].split(" ")[0]
     if ln.startswith("span"):
